@@ -103,7 +103,22 @@ function primitiveOf(v) {
 }
 
 
-function nsValue(ns) {
+// A real module namespace object, or a bundler's emulation of one (an object whose own string-keyed
+// properties are all getters): compared by keys and values only, not by kind.
+function looksLikeNamespace(v) {
+  if (v === null || typeof v !== 'object') return false;
+  try { if (util.types.isModuleNamespaceObject(v)) return true; } catch (e) {}
+  const keys = Object.getOwnPropertyNames(v);
+  if (keys.length === 0) return false;
+  for (let i = 0; i < keys.length; i++) {
+    if (keys[i] === '__esModule') continue;
+    const d = Object.getOwnPropertyDescriptor(v, keys[i]);
+    if (!d || !d.get) return false;
+  }
+  return true;
+}
+
+function nsValue(ns, depth) {
   // exported values: keys + canonical values, reading through getters (live bindings)
   if (ns === null || (typeof ns !== 'object' && typeof ns !== 'function')) return cv(ns);
   const keys = Reflect.ownKeys(ns).filter(function (k) { return typeof k === 'string'; }).sort();
@@ -111,7 +126,10 @@ function nsValue(ns) {
   for (let i = 0; i < keys.length; i++) {
     if (keys[i] === '__esModule') continue;
     let v;
-    try { v = cv(ns[keys[i]]); } catch (e) { v = 'throw:' + cv(e); }
+    try {
+      const val = ns[keys[i]];
+      v = looksLikeNamespace(val) ? ((depth || 0) < 3 ? nsValue(val, (depth || 0) + 1) : 'ns-deep') : cv(val);
+    } catch (e) { v = 'throw:' + cv(e); }
     parts.push(JSON.stringify(keys[i]) + '=' + v);
   }
   return (typeof ns === 'function' ? 'fnns{' : 'ns{') + parts.join(',') + '}';
